@@ -149,7 +149,7 @@ func c17Atoms() []*term {
 	atoms = append(atoms,
 		&term{Kind: tFN, FN: 2},
 		&term{Kind: tNode}, &term{Kind: tNode, Names: []string{"n1"}}, &term{Kind: tNode, Names: []string{"n1", "n2"}}, &term{Kind: tNode, Names: []string{"n2", "n1"}}, &term{Kind: tNode, Names: []string{""}},
-		&term{Kind: tInvolved, Inv: [3]string{"Pod", "a", "p"}}, &term{Kind: tInvolved, Inv: [3]string{"Service", "a", "p"}}, &term{Kind: tInvolved, Inv: [3]string{"Pod", "b", "p"}}, &term{Kind: tInvolved, Inv: [3]string{"Pod", "a", "q"}},
+		&term{Kind: tInvolved, Inv: [3]string{"Pod", "a", "p"}}, &term{Kind: tInvolved, Inv: [3]string{"Service", "a", "p"}}, &term{Kind: tInvolved, Inv: [3]string{"Pod", "b", "p"}}, &term{Kind: tInvolved, Inv: [3]string{"Pod", "a", "q"}}, &term{Kind: tInvolved, Inv: [3]string{"", "a", "p"}}, &term{Kind: tInvolved, Inv: [3]string{"", "b", "p"}}, &term{Kind: tInvolved, Inv: [3]string{"Pod", "", "p"}}, &term{Kind: tInvolved, Inv: [3]string{"Pod", "a", ""}},
 		&term{Kind: tSelectorMatch}, &term{Kind: tSelectorMatch, Set: set()}, &term{Kind: tSelectorMatch, Set: set("x", "1")}, &term{Kind: tSelectorMatch, Set: set("x", "1", "y", "2")}, &term{Kind: tSelectorMatch, Set: set("x", "2")},
 	)
 	nilsel := selSpec{Nil: true}
